@@ -181,3 +181,56 @@ Proof.
   revert H0. generalize (init_world ids boot et ld). induction ls as [|l ls IH]; intros w H; cbn [fold_left]; [exact H|].
   apply IH. apply step_NInv. exact H.
 Qed.
+
+(* ---- a new AppendEntries / InstallSnapshot request is created only by a node that is Leader at that moment, and
+   carries that node's current term ---- *)
+Definition from_leader (w : world) (c : call) : Prop :=
+  match c_req c with
+  | ReqAE q => exists n, get_node w (c_src c) = Some n /\ n_role n = Leader /\ ae_term q = n_term n
+  | ReqIS q => exists n, get_node w (c_src c) = Some n /\ n_role n = Leader /\ is_term q = n_term n
+  | ReqRV _ => True
+  end.
+
+Lemma is_send_term n peer n1 q : l_is_send n peer = (n1, Some q) -> is_term q = n_term n.
+Proof.
+  unfold l_is_send. destruct (role_eqb (n_role n) Leader); cbv beta iota delta [negb]; [|discriminate].
+  destruct (n_lii n =? 0); [discriminate|].
+  match goal with |- (match ?c with _ => _ end) = _ -> _ => destruct c as [[s o]|] end; [|discriminate].
+  intros H. apply (f_equal (fun x => match snd x with Some y => is_term y | None => 0 end)) in H.
+  cbv beta iota delta [snd is_term] in H. symmetry. exact H.
+Qed.
+
+Lemma ae_send_term n peer n1 s :
+  l_ae_send n peer = (n1, s) ->
+  match s with SentAE q => ae_term q = n_term n | SentIS q => is_term q = n_term n | SentNothing => True end.
+Proof.
+  unfold l_ae_send.
+  destruct (role_eqb (n_role n) Leader); cbn [negb orb]; [|intros H; injection H as _ <-; exact I].
+  destruct (negb (is_member (conf_of n) peer)); [intros H; injection H as _ <-; exact I|].
+  destruct (f_next (get_follower n peer) <=? n_lii n).
+  - destruct (l_is_send n peer) as [m [q|]] eqn:E; intros H; injection H as _ <-; [|exact I].
+    exact (is_send_term _ _ _ _ E).
+  - destruct (next_index (n_log n) <? f_next (get_follower n peer)); intros H; injection H as _ <-; [exact I|reflexivity].
+Qed.
+
+(* the head task of a running node *)
+Theorem task_request_from_leader w m c :
+  get_node w (n_id m) = Some m ->
+  In c (w_calls (step_task w m)) -> ~ In c (w_calls w) -> from_leader w c.
+Proof.
+  intros G Hc Hn. unfold step_task in Hc. destruct (n_tasks m) as [|t rest]; [contradiction|].
+  set (m0 := m <| n_tasks := rest |>) in *.
+  assert (P0 : n_id m0 = n_id m /\ n_role m0 = n_role m /\ n_term m0 = n_term m) by (repeat split).
+  clearbody m0. destruct P0 as (I0 & R0 & T0).
+  destruct t as [rid peer pv|rid peer].
+  - destruct (l_rv_send m0 rid peer pv) as [q|] eqn:E; [|contradiction].
+    unfold new_call in Hc. cbn [w_calls set] in Hc. apply in_app_or in Hc.
+    destruct Hc as [Hc|[<-|[]]]; [contradiction|]. exact I.
+  - destruct (l_ae_send m0 peer) as [m1 s] eqn:E.
+    pose proof (ae_send_named _ _ _ _ E) as HN. pose proof (ae_send_term _ _ _ _ E) as HT.
+    destruct s as [|q|q]; [contradiction| |];
+      unfold new_call in Hc; cbn [w_calls set] in Hc; apply in_app_or in Hc;
+      (destruct Hc as [Hc|[<-|[]]]; [contradiction|]);
+      unfold from_leader; cbn [c_req c_src]; exists m; destruct HN as [_ HL];
+      (split; [exact G|split; [rewrite <- R0; exact HL|rewrite HT; exact T0]]).
+Qed.
